@@ -1506,7 +1506,23 @@ int bufr_apply_tables2node
 
             if (ddo->change_ref_value != 0)
                {
-               cb->encoding.reference *= 10^ddo->change_ref_value;
+               {
+               /* multiply by 10**YYY (integer power, not XOR); refuse a result that does not fit */
+               int64_t  ref64 = cb->encoding.reference;
+               int      ip;
+
+               for (ip = 0; (ip < ddo->change_ref_value) && (ref64 >= INT_MIN) && (ref64 <= INT_MAX) ; ip++)
+                  ref64 *= 10;
+               if ((ref64 < INT_MIN)||(ref64 > INT_MAX))
+                  {
+                  sprintf( errmsg, _("Error: reference value of %d overflows with 207%.3d\n"), 
+                           cb->descriptor, ddo->change_ref_value );
+                  bufr_print_debug( errmsg );
+                  *errcode = -1;
+                  }
+               else
+                  cb->encoding.reference = (int)ref64;
+               }
                cb->encoding.ref_nbits = bufr_value_nbits( cb->encoding.reference );
                if (debug)
                   {
